@@ -295,15 +295,29 @@ pub enum ChildVerdict {
 }
 
 pub fn run_in_child(ctx: &Ctx, kind: &str, texts: &[String], timeout: Duration) -> ChildVerdict {
+    run_in_child_exe(ctx, None, kind, texts, timeout)
+}
+
+/// The second build of this harness (cargo's dev profile: kiki unoptimised, with debug assertions and
+/// overflow checks — the profile cargo compiles build-dependencies in by default). check.sh builds it for C07.
+pub fn debug_worker_exe(root: &std::path::Path) -> Option<std::path::PathBuf> {
+    let p = root.join("harness/target/debug/verif");
+    p.exists().then_some(p)
+}
+
+pub fn run_in_child_exe(ctx: &Ctx, worker_exe: Option<&std::path::Path>, kind: &str, texts: &[String], timeout: Duration) -> ChildVerdict {
     let work = ctx.root.join(".work");
     let _ = std::fs::create_dir_all(&work);
     let infile = work.join(format!("{kind}-{}-{:x}.json", std::process::id(), hash_of(&texts)));
     if let Err(e) = std::fs::write(&infile, serde_json::to_string(texts).unwrap()) {
         return ChildVerdict::Broken(format!("cannot write {}: {e}", infile.display()));
     }
-    let exe = match std::env::current_exe() {
-        Ok(e) => e,
-        Err(e) => return ChildVerdict::Broken(format!("current_exe: {e}")),
+    let exe = match worker_exe {
+        Some(p) => p.to_path_buf(),
+        None => match std::env::current_exe() {
+            Ok(e) => e,
+            Err(e) => return ChildVerdict::Broken(format!("current_exe: {e}")),
+        },
     };
     let mut cmd = Command::new(exe);
     cmd.arg("worker").arg(kind).arg(&infile).stdout(Stdio::piped()).stderr(Stdio::null());
@@ -366,19 +380,48 @@ pub fn run_in_child(ctx: &Ctx, kind: &str, texts: &[String], timeout: Duration) 
 }
 
 fn c07_children(ctx: &Ctx, rep: &mut Report, label: &str, named: &[(String, String)], per_batch: usize, timeout: Duration) {
+    c07_children_exe(ctx, rep, label, named, per_batch, timeout, None)
+}
+
+fn debug_case(text: &str) -> Value {
+    json!({ "source": text, "worker": "debug" })
+}
+
+/// `debug` = Some(path of the dev-profile worker): failures carry `"worker": "debug"` so that the replay uses the same
+/// build, and a watchdog trip is only counted (an unoptimised kiki is 10-50x slower on the size-stress inputs; the
+/// release-build stage judges running time).
+fn c07_children_exe(ctx: &Ctx, rep: &mut Report, label: &str, named: &[(String, String)], per_batch: usize, timeout: Duration, debug: Option<&std::path::Path>) {
+    // child processes side by side: the inputs are dealt round-robin to `lanes` threads, each running its share in order
+    let lanes = if debug.is_some() { ctx.threads.clamp(1, 12) } else { 1 };
+    let shares: Vec<Vec<(String, String)>> = (0..lanes).map(|l| named.iter().skip(l).step_by(lanes).cloned().collect()).collect();
+    let outs: Vec<RunOutcome> = std::thread::scope(|sc| {
+        let hs: Vec<_> = shares.iter().map(|share| sc.spawn(move || c07_children_lane(ctx, share, per_batch.div_ceil(lanes).max(1), timeout, debug))).collect();
+        hs.into_iter().map(|h| h.join().expect("lane thread")).collect()
+    });
+    let mut all = RunOutcome { stats: Stats::default(), failures: vec![] };
+    for o in outs {
+        all.stats.merge(o.stats);
+        all.failures.extend(o.failures);
+    }
+    rep.absorb(label, all);
+}
+
+fn c07_children_lane(ctx: &Ctx, named: &[(String, String)], per_batch: usize, timeout: Duration, debug: Option<&std::path::Path>) -> RunOutcome {
+    let mk_case = |t: &str| if debug.is_some() { debug_case(t) } else { text_case(t) };
+    let build = if debug.is_some() { " (debug build of kiki)" } else { "" };
     let mut st = Stats::default();
     let mut fails = vec![];
     let mut idx = 0;
     while idx < named.len() {
         let batch: Vec<String> = named[idx..(idx + per_batch).min(named.len())].iter().map(|(_, t)| t.clone()).collect();
-        match run_in_child(ctx, "c07", &batch, timeout) {
+        match run_in_child_exe(ctx, debug, "c07", &batch, timeout) {
             ChildVerdict::AllDone(res) => {
                 for (k, r) in res.iter().enumerate() {
                     st.evaluations += 1;
                     st.class(&format!("child-outcome:{}", r.split(' ').next().unwrap_or("")));
                     st.nontrivial(&named[idx + k].1);
                     if r.starts_with("panic") {
-                        fails.push(Failure::new("panic", format!("generate panicked in a child process on `{}`: {r}", named[idx + k].0), text_case(&named[idx + k].1)));
+                        fails.push(Failure::new("panic", format!("generate panicked in a child process{build} on `{}`: {r}", named[idx + k].0), mk_case(&named[idx + k].1)));
                     }
                 }
                 idx += batch.len();
@@ -388,9 +431,15 @@ fn c07_children(ctx: &Ctx, rep: &mut Report, label: &str, named: &[(String, Stri
                 let (name, text) = &named[idx + k];
                 fails.push(Failure::new(
                     "abort",
-                    format!("the process running generate died ({how}) on input `{name}` ({} bytes) — stack overflow, abort or out-of-memory on an in-bounds input", text.len()),
-                    text_case(text),
+                    format!("the process running generate{build} died ({how}) on input `{name}` ({} bytes) — stack overflow, abort or out-of-memory on an in-bounds input", text.len()),
+                    mk_case(text),
                 ));
+                idx += k + 1;
+            }
+            ChildVerdict::Timeout(k) if debug.is_some() => {
+                // not judged: the inputs before it in the batch were fine, the rest of the batch is re-run
+                st.evaluations += k as u64;
+                st.class("debug-build-too-slow-not-judged");
                 idx += k + 1;
             }
             ChildVerdict::Timeout(k) => {
@@ -404,7 +453,7 @@ fn c07_children(ctx: &Ctx, rep: &mut Report, label: &str, named: &[(String, Stri
             }
         }
     }
-    rep.absorb(label, RunOutcome { stats: st, failures: fails });
+    RunOutcome { stats: st, failures: fails }
 }
 
 /// Second opinion on a suspected hang: the text alone, in a fresh child process, with a long limit
@@ -424,11 +473,55 @@ pub fn generate_values<S: Strategy>(strategy: &S, n: usize, seed: u64) -> Vec<S:
     (0..n).filter_map(|_| strategy.new_tree(&mut runner).ok().map(|t| t.current())).collect()
 }
 
+/// The stress inputs for the debug-build worker: all of them (the slow ones are cut by the stage's watchdog and
+/// not judged) plus depth/width inputs sized for an unoptimised build's larger stack frames.
+fn debug_stress_inputs(stress: &[(String, String)]) -> Vec<(String, String)> {
+    let mut v: Vec<(String, String)> = stress.to_vec();
+    for n in [1_000usize, 5_000, 20_000] {
+        v.push((format!("name with {n} leading underscores"), format!("start {0} struct {0} terminal T {{ }}", format!("{}A", "_".repeat(n)))));
+        v.push((format!("field name with {n} leading underscores and digits"), format!("start S struct S {{ {}x: $X }} terminal T {{ $X: () }}", "_1".repeat(n / 2))));
+        v.push((format!("terminal variant name with {n} leading underscores"), format!("start S struct S($_{0}X) terminal T {{ $_{0}X: () }}", "_".repeat(n))));
+    }
+    // every list of the Kiki grammar filled up to 64 KiB of source with its shortest element
+    let fill = |unit: &str, pre: &str, post: &str| -> String {
+        let n = (64 * 1024 - 200 - pre.len() - post.len()) / unit.len();
+        format!("{pre}{}{post}", unit.repeat(n))
+    };
+    for (name, unit, pre, post) in [
+        ("path segments", "a::", "start S struct S($X) terminal T { $X: ", "Q }"),
+        ("generic arguments", "a,", "start S struct S($X) terminal T { $X: G<", "b> }"),
+        ("declarations", "struct A ", "start S terminal T { } ", ""),
+        ("attributes", "#[a]", "start S terminal T { } ", " struct S"),
+        ("tuple fields", "A ", "start S terminal T { } struct A struct S(", ")"),
+        ("skipped tuple fields", "_:A ", "start S terminal T { } struct A struct S(", ")"),
+        ("named fields", "a:A ", "start S terminal T { } struct A struct S{", "}"),
+        ("enum variants", "A ", "start S terminal T { } enum S {", "}"),
+        ("terminal variants", "$A:() ", "start S struct S terminal T {", "}"),
+    ] {
+        v.push((format!("64 KiB of {name}"), fill(unit, pre, post)));
+    }
+    v
+}
+
 pub fn c07_replay(case: &Value) -> Result<(), Failure> {
     let text = case_text(case)?;
     // in a child process first, so that a hanging input cannot hang the replay
     let root = std::path::PathBuf::from(crate::gen::corpus_dir());
     let ctx = Ctx { prop: "C07".into(), tier: Tier::Quick, seed: 0, root, threads: 1, scale: 1.0, shrink_iters: 0 };
+    if case["worker"].as_str() == Some("debug") {
+        // found with the dev-profile build of kiki: replay with that build (check.sh replay builds it for C07)
+        let exe = std::env::current_exe().ok().and_then(|e| Some(e.parent()?.parent()?.join("debug/verif"))).filter(|p| p.exists());
+        let Some(exe) = exe else {
+            return Err(Failure::internal("child-engine", "the dev-profile worker harness/target/debug/verif is not built".into(), Value::Null));
+        };
+        return match run_in_child_exe(&ctx, Some(&exe), "c07", &[text.clone()], Duration::from_secs(300)) {
+            ChildVerdict::AllDone(r) if r[0].starts_with("panic") => Err(Failure::new("panic", format!("generate panicked (debug build of kiki): {}", r[0]), case.clone())),
+            ChildVerdict::AllDone(_) => Ok(()),
+            ChildVerdict::Died(_, how) => Err(Failure::new("abort", format!("the process running generate (debug build of kiki) died ({how})"), case.clone())),
+            ChildVerdict::Timeout(_) => Err(Failure::internal("watchdog", "the debug build did not return within 300 s; inconclusive".into(), case.clone())),
+            ChildVerdict::Broken(e) => Err(Failure::internal("child-engine", e, Value::Null)),
+        };
+    }
     match run_in_child(&ctx, "c07", &[text.clone()], Duration::from_secs(60)) {
         ChildVerdict::AllDone(_) => c07_judge(&text).map(|_| ()),
         ChildVerdict::Died(_, how) => Err(Failure::new("abort", format!("the process running generate died ({how})"), case.clone())),
@@ -455,6 +548,16 @@ pub fn c07_run(ctx: &Ctx) -> i32 {
     let vals = generate_values(&raw_any(), n, ctx.seed ^ 0xC07);
     let named: Vec<(String, String)> = vals.iter().map(|r| any_text(r)).map(|(t, f)| (f.to_string(), t)).collect();
     c07_children(ctx, &mut rep, "E4-child-generated", &named, 500, Duration::from_secs(120));
+    // E4 again with the dev-profile build of kiki (what a build script runs by default): stack depth, overflow checks, debug assertions
+    match debug_worker_exe(&ctx.root) {
+        Some(exe) => {
+            let deep = debug_stress_inputs(&stress);
+            c07_children_exe(ctx, &mut rep, "E4-child-stress-debug-build", &deep, 1, Duration::from_secs(ctx.tier.pick(6, 120) as u64), Some(&exe));
+            let m = ctx.tier.pick(240usize, 6_000usize).min(named.len());
+            c07_children_exe(ctx, &mut rep, "E4-child-generated-debug-build", &named[..m], 250, Duration::from_secs(120), Some(&exe));
+        }
+        None => rep.assumptions.push("the dev-profile worker (harness/target/debug/verif) is not built: the debug-build stages were skipped".into()),
+    }
     if ctx.tier == Tier::Thorough {
         crate::fuzzrun::run_into(ctx, &mut rep, crate::fuzzrun::Campaign { target: "text_frontend", prop: "C07", runs_total: (ctx.scale * 20_000_000.0) as u64, max_len: 4096, seeds: crate::fuzzrun::text_seeds(), dict: true });
         crate::fuzzrun::run_into(ctx, &mut rep, crate::fuzzrun::raw_campaign("C07", (ctx.scale * 500_000.0) as u64));
